@@ -235,7 +235,7 @@ impl Track {
                     events.push(e.clone());
                     let mut noteoff = e.clone();
                     noteoff.etype = EventType::NoteOff;
-                    noteoff.time = e.time + e.v2;
+                    noteoff.time = e.time.saturating_add(e.v2);
                     events.push(noteoff);
                 },
                 _ => {
@@ -266,7 +266,7 @@ impl Track {
             match e.etype {
                 EventType::Meta | EventType::SysEx => {
                     let mut e2 = e.clone();
-                    e2.time -= timepos;
+                    e2.time = e2.time.saturating_sub(timepos);
                     if e2.time < 0 {
                         e2.time = 0;
                         events_head.push(e2);
@@ -276,13 +276,13 @@ impl Track {
                 },
                 EventType::NoteOn => {
                     let mut e2 = e.clone();
-                    e2.time -= timepos;
+                    e2.time = e2.time.saturating_sub(timepos);
                     if e2.time < 0 { continue; }
                     events.push(e2);
                 },
                 EventType::Voice => {
                     let mut e2 = e.clone();
-                    e2.time -= timepos;
+                    e2.time = e2.time.saturating_sub(timepos);
                     if e2.time < 0 {
                         voices[value_range(0, e2.channel, 15) as usize] = e2.v1;
                         continue;
@@ -291,7 +291,7 @@ impl Track {
                 },
                 EventType::ControllChange => {
                     let mut e2 = e.clone();
-                    e2.time -= timepos;
+                    e2.time = e2.time.saturating_sub(timepos);
                     if e2.time < 0 {
                         if 0 <= e2.v1 && e2.v1 < 128 {
                             let ch = value_range(0, e2.channel, 15) as usize;
@@ -325,7 +325,7 @@ impl Track {
     }
     pub fn calc_v_on_time(&mut self, def: isize) -> isize {
         let start_time = self.v_on_time_start;
-        let cur_time = self.timepos - start_time;
+        let cur_time = self.timepos.saturating_sub(start_time);
         let mut result = isize::MIN;
         // on_time?
         let ia = match &self.v_on_time {
@@ -474,11 +474,11 @@ impl Track {
                 if (j % freq) == 0 {
                     let v = (high - low) as f32 * (j as f32 / len as f32) + low as f32;
                     let v = value_range(0, v as isize, 127);
-                    let e = Event::cc(base + j, self.channel, cc_no, v);
+                    let e = Event::cc(base.saturating_add(j), self.channel, cc_no, v);
                     self.events.push(e);
                 }
             }
-            if len > 0 { base += len; }
+            if len > 0 { base = base.saturating_add(len); }
         }
     }
     pub fn write_pb_on_time(&mut self, is_big: isize, ia: Vec<isize>, timebase: isize) {
@@ -500,11 +500,11 @@ impl Track {
                 if (j % freq) == 0 {
                     let v = (high - low) as f32 * (j as f32 / len as f32) + low as f32;
                     let v = value_range(0, v as isize, 16383); // 14bit
-                    let e = Event::pitch_bend(base + j, self.channel, v);
+                    let e = Event::pitch_bend(base.saturating_add(j), self.channel, v);
                     self.events.push(e);
                 }
             }
-            if len > 0 { base += len; }
+            if len > 0 { base = base.saturating_add(len); }
         }
     }
     pub fn remove_cc_on(&mut self, no: isize) {
